@@ -202,24 +202,32 @@ theorem deg0_cubeAdd : ∀ (shape : List Nat) (x y : Mat (List α)),
               simp [List.replicate_succ, vecAdd, ha.1, hb.1, ih a b ha.2 hb.2]
         exact hrow k a b hx.1 hy.1
 
-/-- compatible shares: same levels, same (degree-zero) shape -/
-structure Compat (lq : Nat) (lp : Int) (shape : List Nat) (s : GShare α) : Prop where
+omit [Add α] in
+theorem deg0_shapeOf (shape : List Nat) (v : Mat (List α)) (h : Deg0 shape v) : shapeOf v = shape := by
+  have := congrArg (List.map List.length) h
+  simpa [shapeOf, Function.comp_def] using this
+
+/-- compatible shares: same levels, same decomposition (`BaseTwoDecomposition`, degree-zero shape) -/
+structure Compat (lq : Nat) (lp : Int) (b2 : Nat) (shape : List Nat) (s : GShare α) : Prop where
   hq : s.levelQ = lq
   hp : s.levelP = lp
+  hb : s.base2 = b2
   hs : Deg0 shape s.val
 
-theorem evkAggregate_compat {lq : Nat} {lp : Int} {shape : List Nat} {s1 s2 s3 : GShare α}
-    (h1 : Compat lq lp shape s1) (h2 : Compat lq lp shape s2) (h3 : Compat lq lp shape s3) :
+theorem evkAggregate_compat {lq : Nat} {lp : Int} {b2 : Nat} {shape : List Nat} {s1 s2 s3 : GShare α}
+    (h1 : Compat lq lp b2 shape s1) (h2 : Compat lq lp b2 shape s2) (h3 : Compat lq lp b2 shape s3) :
     evkAggregate s1 s2 s3 = .ok { s3 with val := cubeAdd s1.val s2.val } := by
-  simp [evkAggregate, h1.hq, h2.hq, h3.hq, h1.hp, h2.hp, h3.hp, aggRows_deg0 shape _ _ _ h1.hs h2.hs h3.hs]
+  simp [evkAggregate, h1.hq, h2.hq, h3.hq, h1.hp, h2.hp, h3.hp, h1.hb, h2.hb,
+    deg0_shapeOf shape _ h1.hs, deg0_shapeOf shape _ h2.hs, deg0_shapeOf shape _ h3.hs,
+    aggRows_deg0 shape _ _ _ h1.hs h2.hs h3.hs]
 
 /-- Aggregating compatible evaluation-key shares along ANY tree (each step into a receiver that is
     itself compatible, e.g. a freshly allocated share or the first operand) never fails and yields
     the component-wise sum along the tree. -/
-theorem evk_evalM_compat {lq : Nat} {lp : Int} {shape : List Nat}
-    (recv : GShare α → GShare α) (hrecv : ∀ s, Compat lq lp shape s → Compat lq lp shape (recv s))
-    (sh : Nat → GShare α) (t : AggTree) (hc : ∀ i ∈ t.leaves, Compat lq lp shape (sh i)) :
-    ∃ g, t.evalM (fun x y => evkAggregate x y (recv x)) sh = .ok g ∧ Compat lq lp shape g ∧
+theorem evk_evalM_compat {lq : Nat} {lp : Int} {b2 : Nat} {shape : List Nat}
+    (recv : GShare α → GShare α) (hrecv : ∀ s, Compat lq lp b2 shape s → Compat lq lp b2 shape (recv s))
+    (sh : Nat → GShare α) (t : AggTree) (hc : ∀ i ∈ t.leaves, Compat lq lp b2 shape (sh i)) :
+    ∃ g, t.evalM (fun x y => evkAggregate x y (recv x)) sh = .ok g ∧ Compat lq lp b2 shape g ∧
       g.val = t.eval cubeAdd (fun i => (sh i).val) := by
   induction t with
   | leaf i =>
@@ -230,16 +238,16 @@ theorem evk_evalM_compat {lq : Nat} {lp : Int} {shape : List Nat}
     have hx := hrecv gl cl
     refine ⟨{ recv gl with val := cubeAdd gl.val gr.val }, ?_, ?_, ?_⟩
     · simp [AggTree.evalM, hl, hr, Res.bind, evkAggregate_compat cl cr hx]
-    · exact ⟨hx.hq, hx.hp, deg0_cubeAdd shape _ _ cl.hs cr.hs⟩
+    · exact ⟨hx.hq, hx.hp, hx.hb, deg0_cubeAdd shape _ _ cl.hs cr.hs⟩
     · simp [AggTree.eval, vl, vr]
 
 /-- the same for Galois shares carrying the same element tag -/
-theorem gal_evalM_compat {lq : Nat} {lp : Int} {shape : List Nat} (g0 : Nat)
-    (recv : GalShare α → GalShare α) (hrecv : ∀ s, Compat lq lp shape s.sh → Compat lq lp shape (recv s).sh)
+theorem gal_evalM_compat {lq : Nat} {lp : Int} {b2 : Nat} {shape : List Nat} (g0 : Nat)
+    (recv : GalShare α → GalShare α) (hrecv : ∀ s, Compat lq lp b2 shape s.sh → Compat lq lp b2 shape (recv s).sh)
     (sh : Nat → GalShare α) (t : AggTree)
-    (hc : ∀ i ∈ t.leaves, (sh i).galEl = g0 ∧ Compat lq lp shape (sh i).sh) :
+    (hc : ∀ i ∈ t.leaves, (sh i).galEl = g0 ∧ Compat lq lp b2 shape (sh i).sh) :
     ∃ g, t.evalM (fun x y => galAggregate x y (recv x)) sh = .ok g ∧ g.galEl = g0 ∧
-      Compat lq lp shape g.sh ∧ g.sh.val = t.eval cubeAdd (fun i => (sh i).sh.val) := by
+      Compat lq lp b2 shape g.sh ∧ g.sh.val = t.eval cubeAdd (fun i => (sh i).sh.val) := by
   induction t with
   | leaf i =>
     have := hc i (by simp [AggTree.leaves])
@@ -252,16 +260,16 @@ theorem gal_evalM_compat {lq : Nat} {lp : Int} {shape : List Nat} (g0 : Nat)
     · simp only [AggTree.evalM]
       rw [hl, hr]
       simp [Res.bind, galAggregate, tl, tr, evkAggregate_compat cl cr hx]
-    · exact ⟨hx.hq, hx.hp, deg0_cubeAdd shape _ _ cl.hs cr.hs⟩
+    · exact ⟨hx.hq, hx.hp, hx.hb, deg0_cubeAdd shape _ _ cl.hs cr.hs⟩
     · simp [AggTree.eval, vl, vr]
 
 end validated
 
 /-- the value of the validated aggregate does not depend on the order / grouping -/
-theorem evk_agg_perm {α : Type} [AddCommSemigroup α] {lq : Nat} {lp : Int} {shape : List Nat}
-    (recv : GShare α → GShare α) (hrecv : ∀ s, Compat lq lp shape s → Compat lq lp shape (recv s))
+theorem evk_agg_perm {α : Type} [AddCommSemigroup α] {lq : Nat} {lp : Int} {b2 : Nat} {shape : List Nat}
+    (recv : GShare α → GShare α) (hrecv : ∀ s, Compat lq lp b2 shape s → Compat lq lp b2 shape (recv s))
     (sh : Nat → GShare α) (t₁ t₂ : AggTree) (hperm : t₁.leaves.Perm t₂.leaves)
-    (hc : ∀ i ∈ t₁.leaves, Compat lq lp shape (sh i)) :
+    (hc : ∀ i ∈ t₁.leaves, Compat lq lp b2 shape (sh i)) :
     ∃ g₁ g₂, t₁.evalM (fun x y => evkAggregate x y (recv x)) sh = .ok g₁ ∧
              t₂.evalM (fun x y => evkAggregate x y (recv x)) sh = .ok g₂ ∧ g₁.val = g₂.val ∧
              g₁.levelQ = g₂.levelQ ∧ g₁.levelP = g₂.levelP := by
